@@ -91,6 +91,14 @@ def simulate (G : IOSys σ ι o K) (uf : K → Except Err (ι → K)) :
           | .error e => .error e
           | .ok rest => .ok ((x, u, y) :: rest)
 
+/-- the maps are homogeneous of degree 1 in `(x, u)`: scaling state and input by `c ≠ 0` scales
+update and output by `c` and keeps an error an error (linear maps, possibly time-varying; in the
+polynomial systems of the run-time layer: every term of degree exactly 1 in the signals). -/
+def Homog (G : IOSys σ ι o K) : Prop :=
+  ∀ (c : K), c ≠ 0 → ∀ (t : K) (x : σ → K) (u : ι → K),
+    G.f t (c • x) (c • u) = (G.f t x u).map (c • ·) ∧
+    G.h t (c • x) (c • u) = (G.h t x u).map (c • ·)
+
 /-! ### linearisation by forward differences -/
 
 /-- evaluate `g 0, g 1, …` in order, stop at the first error. -/
